@@ -71,6 +71,7 @@ class Check:
         self.assumptions = []
         self.trusted_base = []
         self.violations = []      # (site, what, replay_path)
+        self.divergences = []     # specification divergences outside the property's own predicate (never an alarm)
         self.known_hit = {}       # key -> (finding, count)
         self.tlc_runs = []
         self.rule = ""
@@ -201,9 +202,17 @@ class Check:
         self.violations.append((site, what, str(rp)))
         return True
 
+    def divergence(self, site: str, what: str):
+        """the implementation left the specification in a way that is NOT a violation of this property's own predicate
+        (the specification covers more of the system than the listed properties): recorded in the evidence and printed,
+        never an alarm"""
+        self.divergences.append({"site": site, "what": what[:600]})
+
     # ------------------------------------------------------------------ finish
     def finish(self) -> int:
         wall = time.time() - self.t0
+        for dv in self.divergences[:10]:
+            print(f"SPEC-DIVERGENCE (outside the predicate of {self.pid}, not an alarm) site={dv['site']}: {dv['what']}")
         for key, (f, n) in self.known_hit.items():
             print(f"KNOWN-FINDING: property={self.pid} {f['what']} [key={key}, {n} case(s) this run]")
         seen = set()
@@ -224,6 +233,7 @@ class Check:
             "tlc_runs": self.tlc_runs,
             "trusted_base": self.trusted_base,
             "known_findings_hit": {k: n for k, (f, n) in self.known_hit.items()},
+            "specification_divergences_outside_this_property": self.divergences,
         }
         cov.update(self.extra)
         ev = {
